@@ -2,7 +2,8 @@
 (* V binding for C05: round trips through the real encoder and decoder recorded by harness/c05_record.  One ndjson line
    per round trip:
 
-      e = "rt"   json = 1 (Json::) / 0 (Xdl::), exact = 1 in the exact modes (NONE, PRETTY) / 0 in the 15/7-digit modes,
+      e = "rt"   json = 1 (Json::) / 0 (Xdl::), exact = 1 in the exact modes (NONE, PRETTY) / 0 in the 15/7-digit modes
+                 (SIMPLE, NICE) and the modes with SHORTF (doubles with 9/7 digits), mode = the Json::Mode bits passed,
                  tree = the value that was put into the Var (recorder's own structure, never read back from ASL),
                  text = the bytes the encoder produced (through a file: the bytes found in the file; omitted for very large files),
                  dec  = projection of what the decoder returned for that text
@@ -17,8 +18,11 @@
            the correctly rounded value of the token;
       (ii) dec = tree: same structure, keys, strings, booleans; ints numerically; in the exact modes non-zero doubles bit
            for bit (an integral double may come back as an int with the same value) and floats exactly after
-           conversion to float.                                                                                  *)
-EXTENDS JsonText, Json, IOUtils
+           conversion to float;
+      (iii) layout (texts up to 6000 bytes): text is exactly  Ser(tree, mode)  of spec/XdlWriter.tla - the writer
+           specification with every flag, line-break and indentation rule - where each double/float leaf stands for
+           "one number token" (its digits are judged by (i)); mode = the Json::Mode bits passed, + JSON for Json::. *)
+EXTENDS JsonText, XdlWriter, Json, IOUtils
 
 T == ndJsonDeserialize(IOEnv.TRACE)
 VARIABLE l
@@ -41,11 +45,13 @@ RtOK(e) ==
     LET tree == Expand(e.tree) IN
     /\ (e.json = 1 /\ "text" \in DOMAIN e) => LET r == Doc(e.text) IN
                        /\ r.ok
-                       /\ TextDenotes(r.v, tree, e.exact = 1)
+                       /\ WDenotes(r.v, tree, e.mode + 8)     \* digits: 17/9 (half an ulp), SIMPLE 15/7, SHORTF 9/7
                        /\ TreeUtf8(tree) => ~r.ex
                        \* reduced-precision modes: tree ~ token is (i) above (15/7 digits); token -> decoded must be exact
                        /\ (e.exact = 0) => ValMatches(r.v, e.dec, TRUE)
     /\ TreeRoundTrip(tree, e.dec, e.exact = 1)
+    /\ ("text" \in DOMAIN e /\ "mode" \in DOMAIN e) =>
+          (Len(e.text) <= 6000 => MatchLayout(e.text, Ser(tree, e.mode + 8 * e.json)))
 
 TInit == l = 1
 TStep == /\ l <= Len(T)
